@@ -1,4 +1,5 @@
-(* Props/C07Versioning.v -- "every result is a valid new version whose non-marking content is unchanged",
+(* OPTIONAL GROUP (built separately by harness/props/c07.py; depends on r-c15-c05's files).
+   Props/C07Versioning.v -- "every result is a valid new version whose non-marking content is unchanged",
    carried over from C05's model of versioning.new_version (Model/Versioning.v, Props/C05.v; imported, not
    edited).  The marking functions produce their results only by new_version(obj, <name>=..., allow_custom=True)
    (Props/C07.v: mutators_via_new_version); the names are read from the source text on every run
@@ -7,14 +8,9 @@
    T, nm, c, d, ch, now, later, pget: as in Props/C05.v.  kmod = "modified".                       *)
 From Coq Require Import String ZArith List Bool.
 From V Require Import Base.UString Base.Json Model.Timestamp Model.Versioning
-  Proofs.VersioningFacts Proofs.VersioningProofs Gen.MarkingFacts Proofs.MarkingsVersioning.
+  Proofs.VersioningFacts Proofs.VersioningProofs Gen.MarkingFacts Proofs.MarkingsSrc Proofs.MarkingsVersioning.
 Import ListNotations.
 Open Scope list_scope.
-
-(* the text asks new_version to change nothing but object_marking_refs / granular_markings *)
-Theorem source_changes_only_marking_keys : forall k, In k src_nv_changed_keys -> In k marking_keys.
-Proof. exact src_changes_only_marking_keys. Qed.
-Print Assumptions source_changes_only_marking_keys.
 
 (* for every such call, whatever the clock reads: strictly later after serialization, and every other property is
    what it was (as handed over for a dict; in its cleaned, stored form for an object of a class: `stored`) *)
